@@ -376,15 +376,30 @@ func checkCase(c Case) (out evid.Outcome) {
 	if s.q != wantQ || s.qd != wantQD {
 		return evid.Fail("query", "Query = %q / with default %q; want %q / %q; %s", s.q, s.qd, wantQ, wantQD, desc)
 	}
-	if s.trim != strings.TrimSpace(wantQ) || s.trimd != strings.TrimSpace(wantQD) {
-		return evid.Fail("query-trim", "QueryTrim = %q / %q; want %q / %q; %s", s.trim, s.trimd, strings.TrimSpace(wantQ), strings.TrimSpace(wantQD), desc)
+	// a present value is returned trimmed / unescaped; an absent or empty one
+	// yields the caller's default as it is (the default is not a query value)
+	wantTrim, wantTrimD := "", c.DefS
+	if present {
+		wantTrim, wantTrimD = strings.TrimSpace(sent), strings.TrimSpace(sent)
 	}
-	if c.Double && present {
-		if s.un != v {
-			return evid.Fail("query-unescape", "QueryUnescape = %q, want %q (sent double-encoded); %s", s.un, v, desc)
+	if s.trim != wantTrim || s.trimd != wantTrimD {
+		return evid.Fail("query-trim", "QueryTrim = %q / with default(%q) %q; want %q / %q; %s", s.trim, c.DefS, s.trimd, wantTrim, wantTrimD, desc)
+	}
+	if !present {
+		if s.un != "" || s.und != c.DefS {
+			return evid.Fail("query-unescape-default", "QueryUnescape of an absent or empty value = %q / with default(%q) %q; want \"\" / the default; %s", s.un, c.DefS, s.und, desc)
 		}
-		nt = true
-		out.Classes = append(out.Classes, "double-encoded")
+	} else {
+		if s.un != s.und {
+			return evid.Fail("query-unescape", "QueryUnescape of a present value = %q without and %q with a default; %s", s.un, s.und, desc)
+		}
+		if dec, ok := queryDecode(sent); ok && s.un != dec {
+			return evid.Fail("query-unescape", "QueryUnescape = %q, want %q (the value %q unescaped once more); %s", s.un, dec, sent, desc)
+		}
+		if c.Double {
+			nt = true
+			out.Classes = append(out.Classes, "double-encoded")
+		}
 	}
 	// lists
 	if c.Absent {
@@ -396,7 +411,16 @@ func checkCase(c Case) (out evid.Outcome) {
 		for _, m := range c.More {
 			want = append(want, unq(m))
 		}
-		if fmt.Sprintf("%q", s.strs) != fmt.Sprintf("%q", want) || fmt.Sprintf("%q", s.strsd) != fmt.Sprintf("%q", want) {
+		okStrs := fmt.Sprintf("%q", s.strs) == fmt.Sprintf("%q", want)
+		okStrsD := fmt.Sprintf("%q", s.strsd) == fmt.Sprintf("%q", want)
+		if len(want) == 1 && want[0] == "" {
+			// "k=": the key is there, its only value is empty - the list [""] (what
+			// the repository's suite shows) and "empty yields the default" (the
+			// statement read literally) are both accepted
+			okStrs = okStrs || len(s.strs) == 0
+			okStrsD = okStrsD || fmt.Sprint(s.strsd) == fmt.Sprint([]string{c.DefS, "second"})
+		}
+		if !okStrs || !okStrsD {
 			return evid.Fail("query-strings", "QueryStrings = %q / %q, want %q; %s", s.strs, s.strsd, want, desc)
 		}
 	}
@@ -527,7 +551,7 @@ func genCase(t *rapid.T) Case {
 		V:      strconv.QuoteToASCII(genValue(t)),
 		Param:  strconv.QuoteToASCII(genValue(t)),
 		Cookie: strconv.QuoteToASCII(genValue(t)),
-		DefS:   []string{"", "dflt", " pad "}[rapid.IntRange(0, 2).Draw(t, "defs")],
+		DefS:   []string{"", "dflt", " pad ", "d%41", "a+b", "%zz"}[rapid.IntRange(0, 5).Draw(t, "defs")],
 		DefI:   []int64{0, 1, -7, 42}[rapid.IntRange(0, 3).Draw(t, "defi")],
 		DefB:   rapid.Bool().Draw(t, "defb"),
 		DefF:   []float64{0, 1.5, -2}[rapid.IntRange(0, 2).Draw(t, "deff")],
